@@ -231,6 +231,12 @@ def atomic_assign(prog, rep):
                     save = (s, t.id, v.attr)
                 elif is_self_attr(t, self_name=sn) and isinstance(v, (ast.List, ast.Call)) and (not isinstance(v, ast.List) or not v.elts):
                     reset = (s, t.attr)
+        if save is not None and reset is None and tr.body and isinstance(tr.body[0], ast.Assign) and len(tr.body[0].targets) == 1:
+            # the reset as the first statement INSIDE the try: protected by the same handler, and the save precedes it
+            t, v = tr.body[0].targets[0], tr.body[0].value
+            if is_self_attr(t, self_name=sn) and isinstance(v, (ast.List, ast.Call)) and (not isinstance(v, ast.List) or not v.elts):
+                reset = (tr.body[0], t.attr)
+                pre = pre + [tr.body[0]]
         if save is None or reset is None or save[2] != reset[1]:
             rep.fail("atomic-assign", mod, fq, pre[0] if pre else tr, "the previous list is not saved and then replaced by a fresh empty list before the elements are added", construct=f"{fq} save/reset")
             continue
